@@ -23,22 +23,22 @@ structure FlagBlind (R : Rel DB) : Prop where
   set : ∀ s b, R.r s { s with avgTouched := b }
 
 theorem applyBlock_rel {P : Params} {R : Rel DB} (fb : FlagBlind R) (n : Node) (b : Block)
-    (ok : PrimsOK P b.height R) : R.r n.db (applyBlock P n b).1.db := by
+    (ok : PrimsOK P b.height R) (hlog : ∀ x, Step R (logExec x)) : R.r n.db (applyBlock P n b).1.db := by
   rcases applyBlock_db P n b with h | ⟨s', avgs, hs, hdb, _⟩
   · rw [h]; exact R.refl _
   · rw [hdb]
-    have h1 := (blockTx_step (P := P) (R := R) { n.db with avgTouched := false } b avgs ok).ok hs
+    have h1 := (blockTx_step (P := P) (R := R) { n.db with avgTouched := false } b avgs ok hlog).ok hs
     exact R.trans _ _ _ (fb.set n.db false) (R.trans _ _ _ h1 (fb.set s' false))
 
 /-- a relation family indexed by the block height holds along a whole chain when it composes -/
 theorem runBlocks_rel {P : Params} (R : Rel DB) (fb : FlagBlind R)
-    (ok : ∀ b : Block, PrimsOK P b.height R) (n : Node) (chain : List Block) :
+    (ok : ∀ b : Block, PrimsOK P b.height R) (hlog : ∀ x, Step R (logExec x)) (n : Node) (chain : List Block) :
     R.r n.db (runBlocks P n chain).db := by
   induction chain generalizing n with
   | nil => exact R.refl _
   | cons b bs ih =>
     unfold runBlocks
-    exact R.trans _ _ _ (applyBlock_rel fb n b (ok b)) (ih _)
+    exact R.trans _ _ _ (applyBlock_rel fb n b (ok b) hlog) (ih _)
 
 /-! ### C12: rates are immutable -/
 
@@ -50,7 +50,7 @@ def ratesFrozen (g : Nat) : Rel DB where
 
 theorem applyBlock_ratesAt (P : Params) (n : Node) (b : Block) (g : Nat) (hg : g ≠ b.height) :
     (applyBlock P n b).1.db.ratesAt g = n.db.ratesAt g := by
-  have := applyBlock_rel (P := P) (R := ratesOnlyAt b.height) ⟨fun s _ g _ => rfl⟩ n b (primsOK_ratesOnlyAt P b.height)
+  have := applyBlock_rel (P := P) (R := ratesOnlyAt b.height) ⟨fun s _ g _ => rfl⟩ n b (primsOK_ratesOnlyAt P b.height) (fun _ => Step.guarded (fun _ _ _ => rfl))
   exact this g hg
 
 theorem runBlocks_ratesAt (P : Params) (n : Node) (chain : List Block) (g : Nat)
@@ -67,6 +67,6 @@ theorem runBlocks_ratesAt (P : Params) (n : Node) (chain : List Block) (g : Nat)
 
 theorem runBlocks_replay (P : Params) (n : Node) (chain : List Block) (x : Hash)
     (hx : n.db.isReplay x = true) : (runBlocks P n chain).db.isReplay x = true :=
-  runBlocks_rel (P := P) relsGrow ⟨fun _ _ _ h => h⟩ (fun b => primsOK_relsGrow P b.height) n chain x hx
+  runBlocks_rel (P := P) relsGrow ⟨fun _ _ _ h => h⟩ (fun b => primsOK_relsGrow P b.height) (fun _ => Step.guarded (fun _ _ h => h)) n chain x hx
 
 end Pegnet
